@@ -378,6 +378,12 @@ def run(rep: Report, tier: str) -> None:
             ok = t[0] == "fld" and _is_sent_minus_received(m, ci, m.field_defs(ci).get(t[2], []), m.field_defs(ci), allow_spot=False)
             rep.check(ok, r, ci.module, f"{ci.name}.crypto_balance_change", f"{ci.name}.crypto_balance_change", f"IntraTransaction.crypto_balance_change normalises to {show(t)}; expected a field defined as crypto_sent - crypto_received (only the fee is disposed)", detail=show(t))
 
+    # the taxable events a run *reports* are those of the window: the views handed to ComputedData / the generators come from the entry-set iterator
+    from . import c10
+
+    rg = rep.rule("C03.g", "no taxable event of the window is dropped by the filtered view: the entry-set iterator keeps from <= own date <= to (both inclusive)", floor=2)
+    c10.check_iterator_window(rep, rg, m, "taxable events dated exactly on a window bound (e.g. a sale on the to-date) would be dropped from the reported taxable events, gain/loss lines and sheets")
+
 
 def _conj(t):
     return list(t[1]) if t[0] == "and" else [t]
